@@ -41,7 +41,7 @@ Theorem C03_same_view : forall (orc : oracles) (t : token) (a : authorizer) (b :
   forall m m' fs fs',
     saturate orc m (w_rules (load t a)) (w_facts (load t a)) = Ok (Some fs) ->
     saturate orc m' (w_rules (load (t ++ [b]) a)) (w_facts (load (t ++ [b]) a)) = Ok (Some fs') ->
-    same_view fs fs' (N.of_nat (length t)).
+    same_view fs fs' (fun tr => ~ In (N.of_nat (length t)) tr).
 Proof. intros orc t a b _ Hu m m' fs fs' H H'. exact (same_view_sat orc t a b Hu m m' fs fs' H H'). Qed.
 Print Assumptions C03_same_view.
 
